@@ -139,14 +139,14 @@ def run_case(case):
         return v.result(decided=True, nontrivial=len(flat) >= 3 and len(combos) > 0, sample=sample)
 
     if case["cls"] == "above-ice":
-        z_bad = float(rng.uniform(1e-3, 50))
+        z_bad = float(10 ** rng.uniform(-6, 1.5))
         where = str(rng.choice(["leaf", "nested", "combine-antenna", "combine-list", "iadd"]))
         raised = False
         try:
             if where == "leaf":
-                Leaf(2, 0.0, z_bad + 1.0)
+                Leaf(2, 0.0, z_bad)
             elif where == "nested":
-                Mid([1, [2, 1]], 0.0, z_bad + 2.0)
+                Mid([1, [2, 1]], 0.0, z_bad)
             elif where == "combine-antenna":
                 build(2, 0) + Antenna((0, 0, z_bad), noisy=False)
             elif where == "combine-list":
